@@ -25,9 +25,36 @@ static volatile double sink;
 template<class T> static void use(T v) { sink = sink * 0.5 + (double)v; }
 static int ints[] = { 0, 1, -1, 2, -2, 3, 7, 8, 255, 256, 65535, 65536, 0x3fffffff, 0x40000000, 0x40000001, INT_MAX, INT_MAX - 1, INT_MIN, INT_MIN + 1, -0x40000000, -255 };
 static float floats[] = { 0.f, -0.f, 0.5f, -0.5f, 0.49999997f, 1.5f, 2.5f, -2.5f, 8388607.5f, 8388609.f, 16777216.f, 2147483520.f, -2147483648.f, 1e-40f, 1.f, -1.f, 0.25f, 1000.75f };
+// conversions between packed and aligned qualifiers (SIMD loads / stores in the intrinsics builds): the source and the destination live in heap blocks of exactly
+// their own size, so that ASan sees any access past the L components of a packed vector; the whole destination object is consumed (a partially used
+// register load may be narrowed by the optimiser)
+#if GLM_CONFIG_ALIGNED_GENTYPES == GLM_ENABLE
+static void consume(void const* p, size_t n) { unsigned char b[64]; std::memcpy(b, p, n); unsigned s = 0; for (size_t i = 0; i < n; ++i) s += b[i]; sink = sink * 0.5 + s; }
+template<int L, class T, glm::qualifier P, glm::qualifier A> static void qconv(const char* name)
+{
+	CALL(name); typedef glm::vec<L, T, P> PV; typedef glm::vec<L, T, A> AV;
+	PV* p = new PV((T)1); for (int i = 0; i < L; ++i) (*p)[i] = (T)(i + 1);
+	AV* a = new AV(*p); consume(a, sizeof(AV)); for (int i = 0; i < L; ++i) if (!((*a)[i] == (T)(i + 1))) std::fprintf(stderr, "%s:0:0: runtime error: component %d changed by the packed -> aligned conversion\n", name, i);
+	PV* q = new PV(*a); consume(q, sizeof(PV)); for (int i = 0; i < L; ++i) if (!((*q)[i] == (T)(i + 1))) std::fprintf(stderr, "%s:0:0: runtime error: component %d changed by the aligned -> packed conversion\n", name, i);
+	AV* a2 = new AV((T)7); *a2 = AV(*q); consume(a2, sizeof(AV)); PV* q2 = new PV((T)9); *q2 = PV(*a2); consume(q2, sizeof(PV));
+	delete p; delete a; delete q; delete a2; delete q2;
+}
+template<class T> static void qconv_all(const char* tn)
+{
+	static std::string n[12]; int k = 0;
+	#define QC(L, P, A) n[k] = std::string("qualifier conversion vec") + #L + "<" + tn + "> " + #P + " <-> " + #A; qconv<L, T, glm::P, glm::A>(n[k].c_str()); ++k;
+	QC(1, packed_highp, aligned_highp) QC(2, packed_highp, aligned_highp) QC(3, packed_highp, aligned_highp) QC(4, packed_highp, aligned_highp)
+	QC(2, packed_mediump, aligned_mediump) QC(3, packed_mediump, aligned_mediump) QC(4, packed_mediump, aligned_mediump) QC(3, packed_lowp, aligned_lowp) QC(4, packed_lowp, aligned_lowp)
+	QC(3, packed_highp, aligned_mediump) QC(4, packed_highp, aligned_lowp) QC(3, packed_lowp, aligned_highp)
+	#undef QC
+}
+#endif
 int main(int argc, char** argv)
 {
 	st = argc > 2 ? std::strtoull(argv[2], 0, 10) : 1; bool thorough = argc > 3 && std::string(argv[3]) == "thorough"; int N = thorough ? 20000 : 600; long calls = 0;
+#if GLM_CONFIG_ALIGNED_GENTYPES == GLM_ENABLE
+	qconv_all<float>("float"); qconv_all<double>("double"); qconv_all<int>("int"); qconv_all<unsigned>("uint"); qconv_all<glm::int64>("int64"); qconv_all<glm::int16>("int16"); calls += 72;
+#endif
 	for (int i = 0; i < N; ++i) {
 		int x = i < (int)(sizeof ints / sizeof ints[0]) ? ints[i] : (int)rnd(); int y = ints[rnd() % (sizeof ints / sizeof ints[0])]; unsigned u = (unsigned)rnd(); if (i % 3 == 0) u = (unsigned)x;
 		CALL("abs(int)"); if (x != INT_MIN) use(glm::abs(x));                          // abs(INT_MIN) is not representable: outside the domain
